@@ -103,7 +103,7 @@ def window_cases(tier):
     inside a hand-over window (a lock released, its next owner woken but not yet run): A holds L0;
     M holds L1 and queues on L0; X queues on L0; A releases; H (urgent) arrives on L1 after j steps"""
     for loop in ("stock", "prio"):
-        for (pm, px, ph) in ((5, 3, -10), (5, 3, -5), (3, 3, -10), (5, 1, 0)):
+        for (pm, px, ph, dy) in ((5, 3, -10, -1), (5, 3, -5, -1), (3, 3, -10, -1), (5, 1, 0, -1), (2, 5, -10, 3), (2, 5, -5, 3)):
             for j in range(0, 12 if tier == "quick" else 16):
                 for spin in (0, 1):
                     a = sect(0, ["do", ["sleep0"], ["do", ["sleep0"], ["end"]]])
@@ -111,8 +111,12 @@ def window_cases(tier):
                     x = ["do", ["sleep0"], sect(0, ["do", ["sleep0"], ["end"]])] if spin else sect(0, ["do", ["sleep0"], ["end"]])
                     h = sect(1, ["do", ["sleep0"], ["end"]])
                     y = sect(0, ["do", ["sleep0"], ["end"]])
+                    # z: a runnable bystander of middle urgency (it must not overtake a runnable holder that
+                    # blocks a more urgent waiter)
+                    z = ["do", ["sleep0"], ["do", ["sleep0"], ["do", ["sleep0"], ["do", ["sleep0"], ["do", ["sleep0"],
+                         ["do", ["sleep0"], ["do", ["sleep0"], ["do", ["sleep0"], ["end"]]]]]]]]]
                     acts = [["spawn", ["prio", [6, 1]], a], ["spawn", ["prio", [pm, 1]], m], ["spawn", ["prio", [px, 1]], x],
-                            ["spawn", ["prio", [pm - 1, 1]], y]]
+                            ["spawn", ["prio", [pm + dy, 1]], y], ["spawn", ["prio", [0, 1]], z]]
                     acts += [["step"]] * j
                     acts.append(["spawn", ["prio", [ph, 1]], h])
                     acts += [["step"]] * 30
